@@ -247,11 +247,7 @@ Definition bd_of_bits (bits : list bool) : outcome bf :=
     [Unstructured] is its remaining data.  [fill_buffer(buf)] copies what is available and
     zero-fills the rest (never fails); [usize::arbitrary] reads 8 bytes little-endian the same
     way.  Both are third-party behaviour, assumed and tied by the C20 correspondence. *)
-Definition fill_buffer (data : bytes) (n : N) : bytes * bytes :=
-  let k := N.min n (len data) in
-  (take k data ++ zeros (n - k), drop k data).
-Definition arbitrary_usize (data : bytes) : N * bytes :=
-  let p := fill_buffer data 8 in (le_val (fst p), snd p).
+(* [fill_buffer] and [arbitrary_usize] are in RustSem.v (the translated generators name them as primitives). *)
 
 (** After the [fix:] commit the buffer has [bytes_for_bit_len(N)] bytes (it had [N]). *)
 Definition arb_bitvector (n : N) (data : bytes) : outcome bf :=
